@@ -217,10 +217,34 @@ theorem parse_serialize_full : C04_full := by
   rw [hp]
   simp [objFrame]; omega
 
-/-- for values without streams `Reads` is equality: the full theorem contains `parse_serialize_indirect` -/
+/-- `Reads` at an integer is equality (the single-constructor instance; the general statement is `reads_eq`) -/
 theorem reads_atom_eq (env : Env R) (buf : Buf) (id : Nat × Nat) (p : Prim R) (i : Int) :
     PdfSyntax.Reads env buf id p (.int i) ↔ p = .int i := by
   simp [PdfSyntax.Reads]
+
+/-- **For values without stream objects `Reads` is equality** (every constructor, by induction over the value):
+    the relational conclusion of `parse_serialize_full` is literal equality on the stream-free part of the domain. -/
+theorem reads_eq (env : Env R) (buf : Buf) (id : Nat × Nat) (v p : Prim R)
+    (h : PdfSyntax.Reads env buf id p v) (hn : noStreams v = true) : p = v :=
+  reads_eq_of_noStreams env buf id v p h hn
+
+/-- **The full theorem contains `parse_serialize_indirect`**: every `Serialisable` value is a `Storable` value without
+    streams, so `C04_full` specialises to the literal round trip (the value read back *equals* `v`). Derived from
+    `parse_serialize_full` alone, not from the stream-free development. -/
+theorem parse_serialize_indirect_of_full (env : Env R) (hd : env.decrypt = none) (fmt : R → List UInt8) (v : Prim R)
+    (hser : Serialisable fmt env.parseReal v) (hwf : WF v) (hdepth : vdepth v ≤ maxDepth) (id gen : Nat)
+    (hid : id ≤ 18446744073709551615) (hgen : gen ≤ 18446744073709551615) :
+    ∃ body, serialize fmt v = .ok body ∧
+      ∀ {buf : Buf}, buf.size ≤ 2147483647 → ∀ (pre post : List UInt8) (fuel : Nat),
+        buf.toList = pre ++ (objFrame id gen body ++ post) → need v ≤ fuel →
+        parseIndirectObject env buf fuel pre.length Flags.any =
+          .ok (((id, gen), v), pre.length + (objFrame id gen body).length - 1) := by
+  obtain ⟨hst, hns⟩ := storable_of_serialisable fmt env v hser
+  obtain ⟨body, h1, h2⟩ := parse_serialize_full R env fmt v id gen hd hst hwf hdepth hid hgen
+  refine ⟨body, h1, ?_⟩
+  intro buf hsz pre post fuel hbuf hfuel
+  obtain ⟨p, hp, hr⟩ := h2 buf pre post fuel hsz hbuf hfuel
+  rw [hp, reads_eq env buf (id, gen) v p hr hns]
 
 /-! ### non-vacuity: the hypotheses are satisfiable by non-trivial values, and the conclusions compute -/
 
